@@ -230,6 +230,9 @@ fn dispatch_worker(file_q: cbc::Receiver<Operation>, stats: &Arc<dyn StatusUpdat
                     if config.no_clobber {
                         return Err(XcpError::DestinationExists("Destination file exists and --no-clobber is set.", to).into());
                     }
+                    if paths::same_entry(&from, &to)? {
+                        return Err(XcpError::InvalidDestination("Source and destination are the same file.").into());
+                    }
                     remove_file(&to)?;
                 }
                 copy_node(&from, &to)?;
